@@ -3,6 +3,8 @@
 //   message(elements)/pack    mpi::message(v.elements()) -> MPI_Pack -> bytes == the model's canonical element sequence (count, order, nothing else)
 //   message(elements)/unpack  a known contiguous sequence -> MPI_Unpack through mpi::message(v.elements()) -> WHOLE destination guard buffer == "k-th canonical element <- k-th value"
 //   skeleton(layout)/pack     mpi::skeleton<T>(v.layout()) with v.base()     (the other documented way of the adaptor's test)
+//   message(base,skeleton&&)  mpi::message<>(v.base(), mpi::skeleton<>(v.layout(), dt))   (the skeleton is moved into the message)
+//   skeleton.datatype() &&    the datatype released from an rvalue skeleton is used after the skeleton died and freed by the caller
 //   create_subarray/pack      mpi::create_subarray(v.layout(), dt, &t); commit; count 1; free
 //   data(begin)/pack          mpi::data(v.begin()), count 1 -> the element designated by the iterator (1-D non-empty states)
 //   pair                      pack from the source state's message, unpack through the message of a state of a SECOND root (any shape, equal num_elements)
@@ -173,9 +175,9 @@ int MPI_Unpack(void const* inbuf, int insize, int* position, void* outbuf, int o
 }  // extern "C"
 
 // ===================================================================== configurations =====================================================================
-enum Form { F_MSG_PACK, F_MSG_UNPACK, F_SKEL_PACK, F_SUBARRAY_PACK, F_DATA_PACK, F_PAIR, NFORMS };
-static char const* const form_name[] = {"message(elements)/pack", "message(elements)/unpack", "skeleton(layout)/pack", "create_subarray/pack", "data(begin)/pack", "message(elements)/pack>message(elements)/unpack"};
-static char const* const form_tag[] = {"msg-pack", "msg-unpack", "skel-pack", "subarray-pack", "data-pack", "pair"};
+enum Form { F_MSG_PACK, F_MSG_UNPACK, F_SKEL_PACK, F_MSGSK_PACK, F_SKELREL_PACK, F_SUBARRAY_PACK, F_DATA_PACK, F_PAIR, NFORMS };
+static char const* const form_name[] = {"message(elements)/pack", "message(elements)/unpack", "skeleton(layout)/pack", "message(base,skeleton&&)/pack", "skeleton(layout).datatype()&&/pack", "create_subarray/pack", "data(begin)/pack", "message(elements)/pack>message(elements)/unpack"};
+static char const* const form_tag[] = {"msg-pack", "msg-unpack", "skel-pack", "msgsk-pack", "skelrel-pack", "subarray-pack", "data-pack", "pair"};
 
 template<class T> char const* tname();
 template<> char const* tname<int>() { return "int"; }
@@ -202,6 +204,7 @@ static void finish_state(State& s) {
 	s.lclass = "D" + std::to_string(s.m.rank()) + ":" + c;
 	s.sclass.clear(); s.nontrivial = true;
 	for(auto const& d : s.m.d) { s.sclass += (s.sclass.empty() ? "" : ","); s.sclass += d.size == 0 ? "0" : d.size == 1 ? "1" : "2+"; if(d.size < 1) { s.nontrivial = false; } }
+	if(n == 0) { s.sclass = "some-0"; }   // which dimensions of an empty view are the empty ones is not kept in keys (one class per rank)
 }
 
 struct Symptom { std::string tag, detail; };
@@ -222,7 +225,10 @@ template<class T> struct Root {
 	static idx prod(std::vector<idx> const& s) { idx n = 1; for(auto x : s) { n *= x; } return n; }
 	explicit Root(std::vector<idx> const& s) : sizes(s), N(prod(s)), shape(sizes_str(s)), gs(N), gd(N) {}
 	virtual ~Root() = default;
-	void reset() { for(idx i = 0; i < N; ++i) { gs.data()[i] = val<T>(1, i); gd.data()[i] = val<T>(2, i); } }
+	void reset() {   // element values AND guards (a configuration that damaged a guard must not taint the following ones of the same child)
+		for(idx i = 0; i < N; ++i) { gs.data()[i] = val<T>(1, i); gd.data()[i] = val<T>(2, i); }
+		for(auto* g : {&gs, &gd}) { for(idx i = 0; i < vo::GuardBuffer<T>::G; ++i) { g->buf[static_cast<std::size_t>(i)] = vo::GuardBuffer<T>::sentinel(i); g->buf[static_cast<std::size_t>(vo::GuardBuffer<T>::G + N + i)] = vo::GuardBuffer<T>::sentinel(i + 100); } }
+	}
 	std::size_t cap_bytes() const { return static_cast<std::size_t>(N + 2*vo::GuardBuffer<T>::G + 8)*sizeof(T); }
 	virtual void pack(int form, Hist const& h, PackOut& po) = 0;                           // on the source root
 	virtual void unpack(Hist const& h, std::vector<T> const& in, UnpackOut& uo) = 0;       // on the destination root
@@ -238,6 +244,13 @@ template<class T, int D> struct RootD : Root<T> {
 			switch(form) {
 				case F_MSG_PACK: case F_PAIR: { multi::mpi::message msg(v.elements()); do_pack(msg.buffer(), msg.count(), msg.datatype(), cap, po); break; }
 				case F_SKEL_PACK: { multi::mpi::skeleton<T> sk(v.layout()); do_pack(v.base(), sk.count(), sk.datatype(), cap, po); break; }
+				case F_MSGSK_PACK: { multi::mpi::message<> msg(const_cast<void*>(static_cast<void const*>(v.base())), multi::mpi::skeleton<>(v.layout(), dt)); do_pack(msg.buffer(), msg.count(), msg.datatype(), cap, po); break; }   // NOLINT(cppcoreguidelines-pro-type-const-cast) as the adaptor does
+				case F_SKELREL_PACK: {   // datatype() && hands the datatype over to the caller, who frees it
+					int count = 0; MPI_Datatype t = MPI_DATATYPE_NULL;
+					{ multi::mpi::skeleton<T> sk(v.layout()); count = sk.count(); t = std::move(sk).datatype(); }
+					do_pack(v.base(), count, t, cap, po);
+					MPI_Type_free(&t); break;
+				}
 				case F_SUBARRAY_PACK: {
 					MPI_Datatype t = MPI_DATATYPE_NULL;
 					multi::mpi::create_subarray(v.layout(), dt, &t); MPI_Type_commit(&t);
@@ -339,6 +352,7 @@ template<class T> Outcome run_cfg(int form, Root<T>& A, State const& s, Root<T>*
 				UnpackOut uo; B->unpack(d->h, in, uo);
 				ledger::end(); ledger_symptoms(o);
 				if(!uo.reached || uo.ro) { o.kind = 'N'; return o; }
+				struct Mark { Outcome& o; ~Mark() { for(auto& y : o.sy) { y.tag = "@d " + y.tag; } } } mark{o};   // everything found from here on belongs to the destination side (the pack phase was clean)
 				long bytes = static_cast<long>(in.size()*sizeof(T));
 				if(uo.rc == MPI_SUCCESS) {
 					if(uo.position != bytes) { o.sy.push_back(Symptom{"unpacked-count", "MPI_Unpack consumed " + std::to_string(uo.position) + " bytes of " + std::to_string(bytes)}); }
@@ -408,11 +422,12 @@ static Outcome run_any(Cfg const& c) { return c.t == 0 ? run_typed<int>(c) : run
 static std::string key_of_cfg(Cfg const& c, std::string const& symptom) {
 	State const& s = (*W.shapes[static_cast<std::size_t>(c.sr)].st)[static_cast<std::size_t>(c.ss)];
 	std::string k = std::string(form_name[c.form]) + "|" + (c.t == 0 ? "int" : "double") + "|";
-	if(c.form == F_PAIR) {
+	if(c.form == F_PAIR) {   // a pair is keyed by the side on which it failed: the pack phase (source view) or, after a clean pack, the unpack phase (destination view)
 		State const& d = (*W.shapes[static_cast<std::size_t>(c.dr)].st)[static_cast<std::size_t>(c.ds)];
-		k += s.lclass + ">" + d.lclass + "|n=" + (s.offs.empty() ? "0" : s.offs.size() == 1 ? "1" : "2+");
-	} else { k += s.lclass + "|" + s.sclass; }
-	return k + "|" + symptom;
+		if(symptom.rfind("@d ", 0) == 0) { return k + "destination " + d.lclass + "|" + d.sclass + "|" + symptom.substr(3); }
+		return k + "source " + s.lclass + "|" + s.sclass + "|" + symptom;
+	}
+	return k + s.lclass + "|" + s.sclass + "|" + symptom;
 }
 static std::string json_of_cfg(Cfg const& c, char const* outcome, Symptom const& sy) {
 	State const& s = (*W.shapes[static_cast<std::size_t>(c.sr)].st)[static_cast<std::size_t>(c.ss)];
@@ -424,7 +439,7 @@ static std::string json_of_cfg(Cfg const& c, char const* outcome, Symptom const&
 		State const& d = (*W.shapes[static_cast<std::size_t>(c.dr)].st)[static_cast<std::size_t>(c.ds)];
 		j.s("destination_root_extents", sizes_str(W.shapes[static_cast<std::size_t>(c.dr)].sizes)).s("destination_view", hist_str(d.h).empty() ? "(the root itself)" : hist_str(d.h)).s("destination_model", key_of(d.m)).s("destination_layout", d.lclass);
 	}
-	j.s("outcome", outcome).s("symptom", sy.tag).s("detail", sy.detail);
+	j.s("outcome", outcome).s("symptom", sy.tag.rfind("@d ", 0) == 0 ? sy.tag.substr(3) : sy.tag).s("detail", sy.detail);
 	return j.str();
 }
 
@@ -554,6 +569,7 @@ template<class F> void select_pairs(std::vector<int> const& S, std::vector<int> 
 }
 
 static int do_replay(std::string const& arg, int depth_unused);
+static std::vector<idx> parse_sizes(std::string const& s);
 
 int main(int argc, char** argv) {
 	mc::Args args(argc, argv);
@@ -570,6 +586,15 @@ int main(int argc, char** argv) {
 
 	int rc = 0;
 	if(args.has("replay")) { rc = do_replay(args.get("replay"), depth); }
+	else if(args.has("replay-trace")) {   // trace published by a crashed explorer process: either a configuration (as --replay) or '<sizes>/<view trace>' of the state search
+		std::string tr = args.get("replay-trace");
+		if(tr.rfind("int/", 0) == 0 || tr.rfind("double/", 0) == 0) { rc = do_replay(tr, depth); }
+		else {
+			auto p1 = tr.find('/'); std::string sz = tr.substr(0, p1), hs = p1 == std::string::npos ? "" : tr.substr(p1 + 1);
+			rc = vo::replay_one(parse_sizes(sz), false, parse_hist(hs));   // C01 oracle on the state the search was about to create
+			if(rc == 0) { rc = do_replay("int/msg-pack/" + sz + "/" + hs, depth); }
+		}
+	}
 	else {
 		rc = mc::supervise([&](std::set<std::string> const& skip) {
 			for(auto const& s : shape_list(thorough)) { ShapeStates ss; ss.sizes = s; W.shapes.push_back(ss); }
@@ -590,7 +615,7 @@ int main(int argc, char** argv) {
 				for(std::size_t r = 0; r < W.shapes.size(); ++r) {
 					auto const& st = *W.shapes[r].st;
 					for(std::size_t i = 0; i < st.size(); ++i) {
-						for(int f : {F_MSG_PACK, F_MSG_UNPACK, F_SKEL_PACK, F_SUBARRAY_PACK, F_DATA_PACK}) {
+						for(int f : {F_MSG_PACK, F_MSG_UNPACK, F_SKEL_PACK, F_MSGSK_PACK, F_SKELREL_PACK, F_SUBARRAY_PACK, F_DATA_PACK}) {
 							if(f == F_MSG_UNPACK && st[i].m.ro) { continue; }
 							if(f == F_DATA_PACK && (st[i].m.rank() != 1 || st[i].offs.empty())) { continue; }
 							++total_single; take(Cfg{static_cast<unsigned char>(t), static_cast<unsigned char>(f), static_cast<short>(r), static_cast<short>(r), static_cast<int>(i), static_cast<int>(i)});
@@ -612,7 +637,7 @@ int main(int argc, char** argv) {
 					} }
 				} }
 			}
-			if(shard == 0) { mc::R.note("single-state configurations: " + std::to_string(total_single) + " = 2 element types x states x {message pack, message unpack (mutable view types), skeleton pack, create_subarray pack, data(begin) pack (1-D non-empty)}"); }
+			if(shard == 0) { mc::R.note("single-state configurations: " + std::to_string(total_single) + " = 2 element types x states x {message(elements) pack, message(elements) unpack (mutable view types), skeleton(layout) pack, message(base,skeleton&&) pack, skeleton.datatype()&& pack, create_subarray pack, data(begin) pack (1-D non-empty)}"); }
 			if(shard == 0) { mc::R.note("pair configurations: " + std::to_string(total_pairs) + " executed of " + std::to_string(full_pairs) + " ordered (source state, destination state) pairs with equal num_elements over all ordered root pairs x 2 element types; "
 				+ std::to_string(classes) + " classes (element type, source root, destination root, num_elements, rank:layout class of either side), cap " + std::to_string(cap) + " per class (" + std::to_string(capped_classes) + " classes capped; a capped class still uses every one of its source and destination states)"); }
 			mc::R.note("shard " + std::to_string(shard) + "/" + std::to_string(nshards) + ": " + std::to_string(mine.size()) + " of " + std::to_string(total) + " configurations");
@@ -679,7 +704,7 @@ static int do_replay(std::string const& arg, int) {
 	if(o.kind == 'R') { std::printf("REPLAY OK (rejected by an exception: %s)\n", o.sy.empty() ? "" : o.sy[0].detail.c_str()); return 0; }
 	if(o.kind == 'N') { std::printf("REPLAY not applicable (trace not expressible on this tree, or a read-only view type as destination)\n"); return 2; }
 	std::printf("REPLAY VIOLATION");
-	for(auto const& s : o.sy) { std::printf(" [%s] %s: %s", key_of_cfg(c, s.tag).c_str(), s.tag.c_str(), s.detail.c_str()); }
+	for(auto const& s : o.sy) { std::printf(" [%s] %s", key_of_cfg(c, s.tag).c_str(), s.detail.c_str()); }
 	std::printf("\n");
 	return 1;
 }
